@@ -495,6 +495,9 @@ def _parse_config(raw_cfg: RawConfig) -> Config:
     return cfg
 
 
+SECTION_HEADER_RE = re.compile(r"^\[\[?([^\[\]]+)\]\]?\s*(?:[#;].*)?$")
+
+
 def _parse_current_version_default_pattern(raw_cfg: RawConfig, raw_cfg_text: str) -> str:
     is_config_section = False
     for line in raw_cfg_text.splitlines():
@@ -515,14 +518,11 @@ def _parse_current_version_default_pattern(raw_cfg: RawConfig, raw_cfg_text: str
                 closing_quote = ""
             return line[:version_idx] + version_pattern + closing_quote
 
-        if line.strip() == "[pycalver]":
-            is_config_section = True
-        elif line.strip() == "[bumpver]":
-            is_config_section = True
-        elif line.strip() == "[tool.bumpver]":
-            is_config_section = True
-        elif line and line[0] == "[" and line[-1] == "]":
-            is_config_section = False
+        # NOTE: a section header may be followed by a comment
+        section_match = SECTION_HEADER_RE.match(line)
+        if section_match:
+            section_name      = section_match.group(1).strip()
+            is_config_section = section_name in ("pycalver", "bumpver", "tool.bumpver")
 
     raise ValueError("Could not parse 'current_version'")
 
